@@ -1,11 +1,25 @@
 (* C05 -- passthrough requests have the effect and result of the same host system call.
-   PARTIAL: Model/HostFs.v is a validated, not verified, description of Linux; the tree-refinement
-   theorem covers the single-call operations (see notes/C05.md for the list of what is not covered).
+   PARTIAL only in this sense: Model/HostFs.v is a validated, not verified, description of Linux, and reply
+   refinement is proved for the request kinds [direct_reply] covers (see notes/C05.md).
    Only statements, closed by [exact]. *)
 From Coq Require Import List NArith Bool.
-From FB Require Import Model.Names Model.HostFs Model.Passthrough Proofs.PassthroughCreds Proofs.PassthroughRefine.
+From FB Require Import Gen.Validators Model.Names Model.HostFs Model.Passthrough Proofs.PassthroughCreds Proofs.PassthroughRefine.
 Import ListNotations.
 Local Open Scope N_scope.
+
+(* the exported tree after EVERY request kind, in EVERY configuration, is the tree after the direct calls
+   made with the caller's identity (and with CAP_FSETID dropped exactly where the request asks) *)
+Theorem C05_op_refines_syscall : C05_full.
+Proof. exact tree_full. Qed.
+(* ... and along every history *)
+Theorem C05_history : forall cf qs r, p_creds (r_p r) = root_creds -> run_refines cf r qs.
+Proof. exact history_refines. Qed.
+(* replies (errno, attributes, link target) equal the direct calls' for lookup, getattr, mkdir, mknod, symlink,
+   unlink, rmdir, rename, readlink; C05_reply_partial: create, open, read, write, setattr, xattr, fallocate,
+   lseek replies are compared differentially only *)
+Theorem C05_reply_partial : forall cf s q rp io ho s' dr,
+  p_creds s = root_creds -> direct_reply cf s q = Some dr -> pstep cf s q = (rp, io, ho, s') -> rp = dr.
+Proof. exact reply_refines. Qed.
 
 (* the serving thread's euid/egid/CAP_FSETID after every request, on every path (including every error
    path) and in every configuration, are root's again *)
@@ -15,27 +29,34 @@ Proof. exact pstep_creds_restored. Qed.
 Theorem C05_creds_restored_history : forall cf qs r out rf, p_creds (r_p r) = root_creds -> run cf r qs = (out, rf) ->
   p_creds (r_p rf) = root_creds /\ Forall (fun o => snd o = root_creds) out.
 Proof. exact run_creds_restored. Qed.
-
-(* inside a set_creds scope entered as root the calls run with exactly the caller's ids (and without
-   capabilities unless the caller is root) *)
 Theorem C05_caller_identity : forall A uid gid s (body : pstate -> res A * pstate),
   p_creds s = root_creds ->
   exists c r0 s1, body (with_creds_of s (caller_creds uid gid)) = (r0, s1) /\
                   with_creds uid gid s body = (r0, with_creds_of s1 c).
 Proof. exact with_creds_from_root. Qed.
+Theorem C05_descriptor_before_creds : shape_descriptor_before_set_creds = true.
+Proof. exact descriptor_before_creds. Qed.
 
-(* ownership: a node created by mkdirat/mknodat/symlinkat/openat(O_CREAT) belongs to the calling
-   credentials: uid = the caller's, gid = the caller's unless the directory is setgid.
-   (C05_owner_partial: stated at the level of the creating host call + C05_caller_identity; the
-   composition through do_lookup into the Entry returned to the client is checked by the harness only) *)
-Theorem C05_owner_partial : forall c h d dv n k mode i h', i <> d ->
+(* ownership, up to the Entry returned to the client: an object created by mkdir / mknod / symlink for a caller
+   is owned by that caller (gid: the caller's unless the directory is setgid).
+   C05_owner_create_partial: for create() the same is proved at the level of the creating host call only. *)
+Theorem C05_owner : forall s uid gid parent n call rp io s' d,
+  p_creds s = root_creds -> host_wf (p_host s) -> nul_free n -> creating_call call n ->
+  assoc parent (p_inodes s) = Some d ->
+  create_then_lookup s uid gid parent n call = (rp, io, s') ->
+  forall a, rp = RpEntry a ->
+  a_uid a = uid /\ exists dv, get (p_host s) (id_host d) = Some dv /\
+                              a_gid a = (if has (i_mode dv) S_ISGID then i_gid dv else gid).
+Proof. exact owner_entry. Qed.
+Theorem C05_owner_calls : forall n mode rdev t,
+  creating_call (fun c h d => sys_mkdirat c h d n mode) n /\
+  creating_call (fun c h d => sys_mknodat c h d n mode rdev) n /\
+  creating_call (fun c h d => sys_symlinkat c h t d n) n.
+Proof. intros n mode rdev t. exact (conj (mkdirat_creating n mode) (conj (mknodat_creating n mode rdev) (symlinkat_creating n t))). Qed.
+Theorem C05_owner_create_partial : forall c h d dv n k mode i h', i <> d ->
   create_node c h d dv n k mode = (i, h') ->
   exists v, get h' i = Some v /\ i_uid v = euid c /\ i_gid v = new_gid c dv /\ i_kind v = k.
 Proof. exact create_node_owner. Qed.
-Theorem C05_owner_ids : forall uid gid dv, uid <> 0 ->
-  euid (caller_creds uid gid) = uid /\
-  new_gid (caller_creds uid gid) dv = (if has (i_mode dv) S_ISGID then i_gid dv else gid).
-Proof. exact owner_of_caller. Qed.
 
 (* flags *)
 Theorem C05_flags_writeback_off : forall cf f, c_writeback cf = false -> get_writeback_open_flags cf f = f.
@@ -51,32 +72,30 @@ Theorem C05_flags_check_fd : forall s hid hd flags hd' s', check_fd_flags s hid 
   hd_flags hd' = flags /\ hd_host hd' = hd_host hd /\ hd_acc hd' = hd_acc hd /\
   (hd_flags hd <> flags -> hd_append hd' = has flags O_APPEND) /\ p_host s' = p_host s.
 Proof. exact check_fd_flags_sets. Qed.
-
 Theorem C05_special_never_opened : forall cf s inode flags d, assoc inode (p_inodes s) = Some d ->
   is_safe_inode (id_mode d) = false -> open_inode cf s inode flags = (Err EBADF, s).
 Proof. exact special_never_opened. Qed.
 
-(* refinement of the exported tree by the direct call: the FULL statement (all configurations) is refuted
-   by the inode_file_handles defect; outside that class it holds for the covered operations *)
-Theorem C05_refuted : ~ C05_full.
-Proof. exact full_refuted. Qed.
-Theorem C05_tree_partial : forall cf s q, p_creds s = root_creds -> ~ Known cf q -> C05_tree_statement cf s q.
-Proof. exact tree_partial. Qed.
+(* non-vacuity: root credentials, a well-formed host, a mkdir for uid 1000 under inode_file_handles that
+   succeeds and is owned by 1000, a request kind covered by the reply theorem *)
+Example C05_nonvacuous : p_creds (init_state wit_host 10) = root_creds /\ host_wf (p_host (init_state wit_host 10)) /\
+  (exists a io s', create_then_lookup (init_state wit_host 10) 1000 1000 ROOT_ID [110]
+                     (fun c h d => sys_mkdirat c h d [110] 493) = (RpEntry a, io, s') /\ a_uid a = 1000) /\
+  direct_reply wit_cfg (init_state wit_host 10) (QMkdir ROOT_ID [110] 493 0 1000 1000) <> None.
+Proof. exact wit_ok. Qed.
 
-(* non-vacuity *)
-Example C05_nonvacuous : Known wit_cfg wit_req /\ direct_host wit_cfg (init_state wit_host 10) wit_req <> None /\
-  p_creds (init_state wit_host 10) = root_creds.
-Proof. split; [exact wit_known|]. split; [discriminate | reflexivity]. Qed.
-
+Print Assumptions C05_op_refines_syscall.
+Print Assumptions C05_history.
+Print Assumptions C05_reply_partial.
 Print Assumptions C05_creds_restored.
 Print Assumptions C05_creds_restored_history.
 Print Assumptions C05_caller_identity.
-Print Assumptions C05_owner_partial.
-Print Assumptions C05_owner_ids.
+Print Assumptions C05_descriptor_before_creds.
+Print Assumptions C05_owner.
+Print Assumptions C05_owner_calls.
+Print Assumptions C05_owner_create_partial.
 Print Assumptions C05_flags_writeback_off.
 Print Assumptions C05_flags_writeback_no_append.
 Print Assumptions C05_flags_writeback_access.
 Print Assumptions C05_flags_check_fd.
 Print Assumptions C05_special_never_opened.
-Print Assumptions C05_refuted.
-Print Assumptions C05_tree_partial.
